@@ -314,6 +314,34 @@ func mutateCode(r *rng, code string) string {
 
 // ---------------- C03 ----------------
 func genC03(r *rng, n int, emit func(string)) {
+	genC03Edge(emit)
+	genC03Rand(r, n, emit)
+}
+
+func genC03Edge(emit func(string)) {
+	// the lower window edge, systematically: counters at and around the window size, codes of every counter from 0
+	// to one past the upper edge
+	{
+		key := []byte("12345678901234567890")
+		sec := base32.StdEncoding.EncodeToString(key)
+		for s := uint64(0); s <= 10; s++ {
+			for _, c := range []uint64{0, 1, s, s + 1} {
+				if c > 0 && c+1 < s {
+					continue
+				}
+				for cc := uint64(0); cc <= c+s+2; cc++ {
+					if cc > 3 && cc+3 < c+s && cc != c-s && cc+1 != c-s { // interior points thinned out
+						continue
+					}
+					p := &otp.Param{Digits: 6, Skew: uint(s), Algorithm: otp.SHA1}
+					emit(fmt.Sprintf("vhotp %s %s %d %s", hxs(sec), hxs(refHOTP(key, cc, 6, 0)), c, fmtParam(p)))
+				}
+			}
+		}
+	}
+}
+
+func genC03Rand(r *rng, n int, emit func(string)) {
 	for i := 0; i < n; i++ {
 		s, key := genSecret(r)
 		p := genParam(r, 10)
@@ -338,6 +366,40 @@ func genC03(r *rng, n int, emit func(string)) {
 
 // ---------------- C04 ----------------
 func genC04(r *rng, n int, emit func(string)) {
+	genC04Edge(emit)
+	genC04Rand(r, n, emit)
+}
+
+func genC04Edge(emit func(string)) {
+	// the lower window edge, systematically: time steps at and around the skew, codes of every step from 0 to one
+	// past the upper edge
+	{
+		key := []byte("12345678901234567890")
+		sec := base32.StdEncoding.EncodeToString(key)
+		for s := uint64(0); s <= 10; s++ {
+			for _, st := range []uint64{s, s + 1} {
+				for cc := uint64(0); cc <= st+s+2; cc++ {
+					if cc > 2 && cc+2 < st+s && cc != st-s && cc+1 != st-s {
+						continue
+					}
+					for _, per := range []uint64{30, 0, 7} {
+						if per != 30 && cc > 1 {
+							continue
+						}
+						ep := per
+						if ep == 0 {
+							ep = 30
+						}
+						p := &otp.Param{Digits: 6, Period: uint(per), Skew: uint(s), Algorithm: otp.SHA1}
+						emit(fmt.Sprintf("vtotp %s %s %d,0,0,0 %s", hxs(sec), hxs(refHOTP(key, cc, 6, 0)), st*ep+ep/2, fmtParam(p)))
+					}
+				}
+			}
+		}
+	}
+}
+
+func genC04Rand(r *rng, n int, emit func(string)) {
 	for i := 0; i < n; i++ {
 		s, key := genSecret(r)
 		p := genParam(r, 10)
@@ -904,8 +966,8 @@ func genC13(r *rng, n int, emit func(string)) {
 		emit(s)
 		emit("scan " + s)
 	}
-	genC03(r, n/3, both)
-	genC04(r, n/3, both)
+	genC03Rand(r, n/3, both)
+	genC04Rand(r, n/3, both)
 	genC06(r, n/3, both)
 	// URL parsing errors: the secret travels in the query
 	for i := 0; i < n/6; i++ {
@@ -1014,6 +1076,25 @@ func genC15(r *rng, n int, emit func(string)) {
 		emit("praw " + hxs(m))
 		emit("known " + hxs(m))
 		emit("fromraws " + hxs(m))
+	}
+	// separators, systematically: at every position of a few long names insert ':' or '-', and swap each separator
+	// for the other one (a fourth part, an empty token, two suites glued together)
+	for _, base := range []string{"OCRA-1:HOTP-SHA256-8:C-QN10-PSHA256-S064-T1M", "OCRA-1:HOTP-SHA1-6:QN08-S", "OCRA-1:HOTP-SHA512-8:QH10-S128-T30S",
+		"OCRA-1:HOTP-SHA1-6:C", "OCRA-1:HOTP-SHA1-6:C-QN08-PSHA1-S-T1H"} {
+		for k := 0; k <= len(base); k++ {
+			for _, c := range []string{":", "-"} {
+				emit("nraw " + hxs(base[:k]+c+base[k:]))
+			}
+			if k < len(base) && (base[k] == ':' || base[k] == '-') {
+				o := ":"
+				if base[k] == ':' {
+					o = "-"
+				}
+				emit("nraw " + hxs(base[:k]+o+base[k+1:]))
+				emit("praw " + hxs(base[:k]+o+base[k+1:]))
+				emit("nraw " + hxs(base[:k]+base[k+1:]))
+			}
+		}
 	}
 	for i := 0; i < n; i++ {
 		switch r.intn(10) {
@@ -1520,9 +1601,9 @@ func mixedCases(r *rng, n int) []string {
 		case 0:
 			genC01(r, 2, collect)
 		case 1:
-			genC03(r, 2, collect)
+			genC03Rand(r, 2, collect)
 		case 2:
-			genC04(r, 2, collect)
+			genC04Rand(r, 2, collect)
 		case 3, 4:
 			genC05(r, 2, collect) // OCRA messages shorter and longer than the pooled buffer
 		case 5:
@@ -1531,7 +1612,11 @@ func mixedCases(r *rng, n int) []string {
 			names := otp.ListSuites()
 			sortStrings(names)
 			collect("nraw " + hxs(pick(r, names)))
-			collect("nraw " + hxs(grammarSuite(r, false)))
+			g := grammarSuite(r, false)
+			collect("nraw " + hxs(g))
+			// the same suite in another letter case, before and after: a look-up must not remember spellings
+			collect("nraw " + hxs(respell(r, g)))
+			collect("nraw " + hxs(g))
 		case 7:
 			genC02(r, 2, collect)
 		case 8:
@@ -1543,6 +1628,21 @@ func mixedCases(r *rng, n int) []string {
 		}
 	}
 	return out[:n]
+}
+
+// respell changes the letter case of some characters after the version prefix
+func respell(r *rng, s string) string {
+	b := []byte(s)
+	for i := 7; i < len(b); i++ {
+		if r.chance(1, 3) {
+			if b[i] >= 'A' && b[i] <= 'Z' {
+				b[i] += 32
+			} else if b[i] >= 'a' && b[i] <= 'z' {
+				b[i] -= 32
+			}
+		}
+	}
+	return string(b)
 }
 
 func genC11(r *rng, n int, emit func(string)) {
@@ -1587,9 +1687,9 @@ func genC12(r *rng, n int, emit func(string)) {
 		case 5:
 			genC01(r, 1, func(s string) { inner = s })
 		case 6:
-			genC03(r, 1, func(s string) { inner = s })
+			genC03Rand(r, 1, func(s string) { inner = s })
 		case 7:
-			genC04(r, 1, func(s string) { inner = s })
+			genC04Rand(r, 1, func(s string) { inner = s })
 		case 8:
 			inner = fmt.Sprintf("padb %s %d", hx(r.bytes(pick(r, []int{0, 1, 7, 8, 9, 64, 127, 128, 129, 200}))), pick(r, []int{8, 128}))
 		case 9:
